@@ -732,7 +732,7 @@ def run(ctx, res):
         prng = ctx.subrng("perm")
         perm_cases = [(2, 3, list(o)) for o in itertools.permutations(range(3))] + [(3, 4, list(o)) for o in itertools.permutations(range(4))]
         allp5 = [list(o) for o in itertools.permutations(range(5)) if o[0] >= 3]          # n=3, k=5: chunks 3 and 4 are empty
-        perm_cases += [(3, 5, o) for o in prng.sample(allp5, ctx.scale(12, 48))]
+        perm_cases += [(3, 5, o) for o in prng.sample(allp5, min(len(allp5), ctx.scale(12, 48)))]
         perm_cases += [(1, 2, [1, 0]), (0, 3, [2, 0, 1]), (2, 2, [1, 0]), (2, 2, [1, 1, 0])]
         for (n_, k_, order_) in perm_cases:
             case = {"kind": "assembly", "n": n_, "n_chunks": k_, "zmod": prng.choice([0, 1, 2]), "order": order_ + ([order_[0]] if prng.random() < 0.3 else []),
